@@ -168,6 +168,15 @@ pub fn content_sweep(rep: &mut Report, thorough: bool) {
     for h in ["41", "d", "e", "r", "0", "ffffffff", "000000042", "0000000000000041", "+41", "100000000", "zz", "4g"] {
         cases.push((format!("hash-member:{}", h), json!({"l♭":[{"_id":"x","#":h}, {"_id":"y","#":h,"v":1}], "o♭":{"#":h}}), None));
     }
+    // "#" members changed or removed by a SECOND commit: the second block refers back to the first revision by its
+    // textual form, which must name the same revision (upper-case / mixed-case codes, marker-like codes)
+    for (h, h2) in [("1F600", "1F601"), ("AB", "ab"), ("ab", "AB"), ("41", "42"), ("0A", "d"), ("d", "0A"), ("e", "E"), ("aB", "Ab")] {
+        cases.push((
+            format!("hash-member-updated:{}->{}", h, h2),
+            json!({"l♭":[{"_id":"x","#":h}, {"_id":"y","#":h}], "o♭":{"#":h}}),
+            Some(json!({"l♭":[{"_id":"x","#":h2}], "o♭":{"#":h2}})),
+        ));
+    }
     // two commits: second pack/object set differs from the first
     for s in strs.iter().filter(|s| s.chars().count() <= 2) {
         cases.push((format!("two-commits:{:?}", s), json!({"s": s, "l♭":[{"_id":"x","v":s}]}), Some(json!({"s": format!("{}{}", s, s), "l♭":[{"_id":"x","v":"z"},{"_id":"y","v":s}]}))));
